@@ -334,15 +334,18 @@ def builder_names(ctx, rng, count):
     return bad
 
 
-def stored_values_stream(ctx, rng, count):
+def stored_values_stream(ctx, rng, count, given=None):
     """a solved Problem is pickled AFTER the values its Variables carry have moved on (another Problem over the same Variables was
     solved, or values were assigned by hand): the round trip must preserve status, value and the stored `variable_values`"""
     import pickle
     import sageopt.coniclifts as cl
     bad = []
-    for t in range(count):
-        n = rng.randint(1, 3)
-        lo = [rng.randint(-3, 3) for _ in range(n)]
+    for t in range(count if given is None else len(given)):
+        if given is not None:
+            n, lo = given[t]['n'], given[t]['lo']
+        else:
+            n = rng.randint(1, 3)
+            lo = [rng.randint(-3, 3) for _ in range(n)]
         z = cl.Variable(shape=(n,), name='sv_z%d' % t)
         u = cl.Variable(shape=(2,), name='sv_u%d' % t)
         p1 = cl.Problem(cl.MIN, cl.sum(z) + u[0] + u[1], [z >= np.array(lo, dtype=float), u >= 1])
@@ -354,7 +357,7 @@ def stored_values_stream(ctx, rng, count):
             ctx.incon('stored-values: status %s' % st1)
             continue
         snap = {k: np.array(v, dtype=float).copy() for k, v in p1.variable_values.items()}
-        mode = rng.choice(['other-problem', 'assign', 'none'])
+        mode = given[t]['mode'] if given is not None else rng.choice(['other-problem', 'assign', 'none'])
         rep['mode'] = mode
         if mode == 'other-problem':
             p2 = cl.Problem(cl.MIN, cl.sum(z), [z >= np.array(lo, dtype=float) + 10])
@@ -515,6 +518,9 @@ def recheck(r):
     if 'bseed' in r:
         out = builder_names(common.RecCtx(), random.Random(r['bseed']), r.get('bcount', 3))
         return ('names: ' + out[0][0]) if out else None
+    if 'mode' in r and 'lo' in r:
+        out = stored_values_stream(common.RecCtx(), random.Random(0), 0, given=[r])
+        return ('stored values: ' + out[0][0]) if out else None
     if 'symmetric_seed' in r:
         kind, res = common.forked(_symmetric_values, r['symmetric_seed'], timeout=120)
         if kind == 'exception':
